@@ -10,6 +10,14 @@ import (
 // errInjected is the fault that test readers and writers inject.
 var errInjected = errors.New("verif: injected fault")
 
+// injectedWrapping is an injected fault whose cause is another error (for instance a network error wrapping io.EOF:
+// by the contract of package io only io.EOF itself, unwrapped, means end of input).
+type injectedWrapping struct{ cause error }
+
+func (e *injectedWrapping) Error() string        { return "verif: injected fault: " + e.cause.Error() }
+func (e *injectedWrapping) Unwrap() error        { return e.cause }
+func (e *injectedWrapping) Is(target error) bool { return target == errInjected }
+
 // errCode maps an error to the small enum shared with the model (coq/Base/Iter.v E_*).
 func errCode(err error) int64 {
 	switch {
